@@ -43,8 +43,9 @@ def programs(tier):
     texts += corpus.EXIT_PROGRAMS + corpus.STACK_PROGRAMS
     # constant folding seen through the claims: every operator on boundary operands (all in the thorough tier)
     rf = tlc_generate("Gen_FoldProg")
-    fp = [c["text"] for c in rf[0]]
-    texts += fp if tier == "thorough" else [t for i, t in enumerate(fp) if i % 6 == seed() % 6]
+    ext = {0, -1, 1, 2147483647, -2147483648}     # the extreme pairs always, the rest rotating with the seed
+    texts += [c["text"] for i, c in enumerate(rf[0])
+              if tier == "thorough" or (c["x"] in ext and c["y"] in ext) or i % 6 == seed() % 6]
     return list(dict.fromkeys(texts)), [r1, r2, rb[1], re_[1], rk[1], rf[1]]
 
 
